@@ -245,6 +245,8 @@ def run(ctx, tier, seed, scale=1.0):
             b"\\x41", b"\\x4", b"\\x", b"\\xg", b"\\x414", b"\\xff", b"\\xFF", b"\\u0041", b"\\u00e9", b"\\u20AC", b"\\uD7FF", b"\\uD800",
             b"\\uDFFF", b"\\uE000", b"\\uFFFF", b"\\u12", b"\\u", b"\\u123g", b"\\U00000041", b"\\U0001F600", b"\\U0010FFFF", b"\\U00110000",
             b"\\U001FFFFF", b"\\U00200000", b"\\U0000D800", b"\\U0000DFFF", b"\\UFFFFFFFF", b"\\U80000000", b"\\U0000004", b"\\U",
+            b"\\u007F", b"\\u0080", b"\\u07FF", b"\\u0800", b"\\U0000FFFF", b"\\U00010000", b"\\U00010001", b"\\U0000007f", b"\\U00000080",
+            b"\\U000007ff", b"\\U00000800", b"\\U0003FFFF", b"\\U00040000", b"\\U000FFFFF", b"\\U00100000",
             b"\\q", b"\\e", b"\\8", b"\\9", b"\\ ", b"\\A", b"\\z", b"\\u00E9", b"\\U000000e9"]
     atoms = plain + escs
     bodies = set()
